@@ -66,3 +66,15 @@ VARIANTS += [
  dict(id='c07-p5ref6-spec-table-wrong-function', prop='C07', base='P5-REF6', expect='C07-D1', file='scared/aes/selection_functions/encrypt.py',
       old="'FirstSubBytes': _Target(function=_sub_bytes, expected_key_function=_first_key),", new="'FirstSubBytes': _Target(function=_inv_sub_bytes, expected_key_function=_first_key),"),
 ]
+
+DES_LOOP = "    result = _np.empty((len(guesses), ) + data.shape, dtype='uint8')\n    data = data.astype('uint8')\n    for i, guess in enumerate(guesses):\n        # expanded key with every byte to current key guess on 6-bit word\n        current_expanded_key_guess = _np.bitwise_xor(_np.zeros((128), dtype=_np.uint8), guess)\n        result[i] = des.encrypt(data, current_expanded_key_guess, at_round=at_round, after_step=after_step)\n    return result.swapaxes(0, 1)\n"
+VARIANTS += [
+ dict(id='c07-des-stack-of-squeezed-results', prop='C07', expect='C07-D2', file='scared/des/selection_functions/encrypt.py', old=DES_LOOP,
+      new="    result = []\n    data = data.astype('uint8')\n    for guess in guesses:\n        # expanded key with every byte to current key guess on 6-bit word\n        current_expanded_key_guess = _np.bitwise_xor(_np.zeros((128), dtype=_np.uint8), guess)\n        result.append(des.encrypt(data, current_expanded_key_guess, at_round=at_round, after_step=after_step))\n    return _np.stack(result, axis=1)\n"),
+ dict(id='c07-des-array-of-squeezed-results', prop='C07', expect='C07-D2', file='scared/des/selection_functions/encrypt.py', old=DES_LOOP,
+      new="    result = []\n    data = data.astype('uint8')\n    for guess in guesses:\n        # expanded key with every byte to current key guess on 6-bit word\n        current_expanded_key_guess = _np.bitwise_xor(_np.zeros((128), dtype=_np.uint8), guess)\n        result.append(des.encrypt(data, current_expanded_key_guess, at_round=at_round, after_step=after_step))\n    return _np.array(result).swapaxes(0, 1)\n"),
+ dict(id='c07-silent-des-stack-of-reshaped-results', prop='C07', kind='silent', file='scared/des/selection_functions/encrypt.py', old=DES_LOOP,
+      new="    result = []\n    data = data.astype('uint8')\n    for guess in guesses:\n        # expanded key with every byte to current key guess on 6-bit word\n        current_expanded_key_guess = _np.bitwise_xor(_np.zeros((128), dtype=_np.uint8), guess)\n        result.append(des.encrypt(data, current_expanded_key_guess, at_round=at_round, after_step=after_step).reshape(data.shape))\n    return _np.stack(result, axis=1)\n"),
+ dict(id='c07-des-stack-on-wrong-axis', prop='C07', expect='C07-D2', file='scared/des/selection_functions/encrypt.py', old=DES_LOOP,
+      new="    result = []\n    data = data.astype('uint8')\n    for guess in guesses:\n        # expanded key with every byte to current key guess on 6-bit word\n        current_expanded_key_guess = _np.bitwise_xor(_np.zeros((128), dtype=_np.uint8), guess)\n        result.append(des.encrypt(data, current_expanded_key_guess, at_round=at_round, after_step=after_step).reshape(data.shape))\n    return _np.stack(result, axis=0)\n"),
+]
